@@ -237,6 +237,10 @@ class YPPrologVisitor(prologVisitor):
 
     def visitClause(self,ctx):
         lhs = self.visitSimplepredicate(ctx.simplepredicate())
+        # the predicate becomes the Python function <name>_<arity>
+        if isinstance(lhs, Predicate) and not re.fullmatch(r'[A-Za-z_][A-Za-z0-9_]*', lhs.name()):
+            raise CompilerError(self.context.current_source_file, ctx.simplepredicate(),
+                f"cannot define predicate '{lhs.name()}': its name is not an identifier")
         if ctx.predicateexpression():
             rhs = self.visitPredicateexpression(ctx.predicateexpression())
         else:
